@@ -49,6 +49,7 @@ fn c21_depth_guard_nesting_3() {
         let r1 = g0.increment();
         assert!(r1.is_err() == (limit < 1));
         if let Ok(mut g1) = r1 {
+            // (r1 moved into g1)
             let r2 = g1.increment();
             assert!(r2.is_err() == (limit < 2));
             if let Ok(mut g2) = r2 {
@@ -63,3 +64,4 @@ fn c21_depth_guard_nesting_3() {
     kani::cover!(limit == 2);
     kani::cover!(limit >= 3);
 }
+
